@@ -139,6 +139,34 @@ M = {
 }
 
 
+NV = "not-violation"
+R = {
+ "C09": [("rename-pin-locals", [{"file": "src/coloquinte.cpp", "regex": r"\bpx\b", "replace": "pinPosX"}, {"file": "src/coloquinte.cpp", "regex": r"\bpy\b", "replace": "pinPosY"}], H)],
+ "C01": [("rename-movable-counter", [{"file": PD + "legalizer.cpp", "regex": r"\bj\b", "replace": "movable"}], H),
+         ("rename-best-row", [{"file": PD + "abacus_legalizer.cpp", "regex": r"\bbestRow\b", "replace": "chosenRow"}], H)],
+ "C04": [("rename-tetris-candidates", [{"file": PD + "tetris_legalizer.cpp", "regex": r"\bbestY\b", "replace": "chosenY"}, {"file": PD + "tetris_legalizer.cpp", "regex": r"\bfound\b", "replace": "have"}], H)],
+ "C05": [("rename-found", [{"file": PD + "place_detailed.cpp", "regex": r"\bfound\b", "replace": "gotOne"}, {"file": PD + "place_detailed.cpp", "regex": r"\bbestValue\b", "replace": "reference"}], H)],
+ "C02": [("rename-found", [{"file": PD + "place_detailed.cpp", "regex": r"\bfound\b", "replace": "gotOne"}], H)],
+ "C18": [("rename-result-vector", [{"file": "src/coloquinte.cpp", "regex": r"\bexpansions\b", "replace": "factors"}], H)],
+ "C16": [("rename-locals", [{"file": PG + "density_legalizer.cpp", "regex": r"\bcells\b", "replace": "cs"}, {"file": PG + "density_grid.cpp", "regex": r"\ballCells\b", "replace": "initial"}], H)],
+ "C14": [("rename-locals", [{"file": PG + "density_legalizer.cpp", "regex": r"\bassignment\b", "replace": "where"}, {"file": PG + "density_legalizer.cpp", "regex": r"\bcells\b", "replace": "cs"}], H)],
+ "C06": [("rename-spread-locals", [{"file": PG + "density_grid.cpp", "regex": r"\bdem\b", "replace": "acc"}, {"file": PG + "density_grid.cpp", "regex": r"\bcoords\b", "replace": "out"}], H)],
+ "C03": [("rename-exporter", [{"file": PG + "place_global.cpp", "regex": r"\bexportPlacement\b", "replace": "writeBack"}, {"file": PG + "place_global.hpp", "regex": r"\bexportPlacement\b", "replace": "writeBack"}], NV)],
+ "C15": [("rename-obstacle-list", [{"file": "src/coloquinte.cpp", "regex": r"\bobstacles\b", "replace": "blocked"}, {"file": "src/coloquinte.hpp", "regex": r"\bobstacles\b", "replace": "blocked"}], H)],
+ "C12": [("rename-save-list", [{"file": PD + "row_legalizer.cpp", "regex": r"\bpassed_bounds\b", "replace": "popped"}], H)],
+ "C17": [("rename-local-weights", [{"file": PG + "net_model.cpp", "regex": r"\bdistW\b", "replace": "wd"}, {"file": PG + "net_model.cpp", "regex": r"\bstrength\b", "replace": "k"}], H)],
+ "C19": [("rename-helper", [{"file": "src/parameters.cpp", "regex": r"\bcheckEffort\b", "replace": "requireValidEffort"}], H)],
+ "C10": [("rename-guard-class", [{"file": "src/coloquinte.cpp", "regex": r"\bInUseGuard\b", "replace": "BusyScope"}], H)],
+ "C08": [("rename-async-locals", [{"file": PG + "place_global.cpp", "regex": r"\bpenalty\b(?!\.)", "replace": "pen"}], NV)],
+ "C20": [("rename-export-locals", [{"file": "src/export.cpp", "regex": r"\bpin\b", "replace": "k"}], H)],
+}
+
+
+def rjob(item):
+    pid, (name, edits, expect) = item
+    return pid, name, edits, expect, scratch.with_change("regex", edits, [pid])
+
+
 def job(item):
     pid, (name, file, find, repl, expect, rules) = item
     r = scratch.with_change("edit", {"file": file, "find": find, "replace": repl}, [pid])
@@ -160,6 +188,18 @@ def main():
         print("%s %s %-38s expect=%s exit=%d rules=%s %s" % ("ok    " if ok else "UNEXP ", pid, name, expect, v["exit"], v["rules"], "" if ok else v["lines"][:2]))
         if ok:
             good.setdefault(pid, []).append({"name": name, "file": file, "find": find, "replace": repl, "expect": expect, "rules": rules})
+    ritems = [(pid, m) for pid, ms in R.items() for m in ms if not only or pid in only]
+    with ThreadPoolExecutor(max_workers=8) as ex:
+        rres = list(ex.map(rjob, ritems))
+    for pid, name, edits, expect, r in rres:
+        if "error" in r:
+            print("ERROR  %s %-38s %s" % (pid, name, r["error"]))
+            continue
+        v = r[pid]
+        ok = (expect == H and v["exit"] == 0) or (expect == NV and v["exit"] in (0, 2))
+        print("%s %s refactor %-30s expect=%s exit=%d %s" % ("ok    " if ok else "UNEXP ", pid, name, expect, v["exit"], "" if ok and v["exit"] == 0 else v["lines"][:2]))
+        if ok:
+            good.setdefault(pid, []).append({"name": name, "edits": edits, "expect": expect})
     for pid, lst in good.items():
         if only and pid not in only:
             continue
